@@ -9,6 +9,13 @@ byk = {(f["property"], f["key"]): f for f in d["findings"]}
 for fn in sorted(glob.glob(os.path.join(ROOT, "known_findings.d", "*.json"))):
     for f in json.load(open(fn))["findings"]:
         byk[(f["property"], f["key"])] = f
+import re
+for f in byk.values():
+    what = re.sub(r"^fixed: property=\S+ \S+ ", "", f.get("what", "")).strip()
+    if f["status"] == "fixed":
+        f["record"] = f"fixed: property={f['property']} {f.get('commit', '?')} {what}"
+    else:
+        f["record"] = f"KNOWN-FINDING: property={f['property']} {f['key']}: {what}"
 d["findings"] = sorted(byk.values(), key=lambda f: (f["property"], f["status"], f["key"]))
 json.dump(d, open(main, "w"), indent=1)
 print(len(d["findings"]), "findings in known_findings.json")
